@@ -45,6 +45,7 @@ pub fn all() -> Vec<Scenario> {
         Scenario { name: "handler_unsubscribes_itself", props: &["C04", "C09"], run: handler_unsubscribes_itself },
         Scenario { name: "handler_subscribes_same_observer", props: &["C04", "C09"], run: handler_subscribes_same_observer },
         Scenario { name: "scope_node_outlives_bind", props: &["C04", "C03"], run: scope_node_outlives_bind },
+        Scenario { name: "scope_node_kept_while_bind_input_grows", props: &["C03", "C02", "C11"], run: scope_node_kept_while_bind_input_grows },
         Scenario { name: "observe_scope_node_of_unobserved_bind", props: &["C04"], run: observe_scope_node_of_unobserved_bind },
     ]
 }
@@ -681,5 +682,72 @@ fn double_unsubscribe() -> Result<(), String> {
         "the other subscriber saw {:?} after a token was unsubscribed twice",
         log.borrow()
     );
+    Ok(())
+}
+
+fn scope_node_kept_while_bind_input_grows() -> Result<(), String> {
+    let st = IncrState::new();
+    let sel = st.var(0i64);
+    let base = st.var(1i64);
+    let shallow = base.map(|x| *x);
+    let mut deep = base.map(|x| x + 100);
+    for _ in 0..6 {
+        deep = deep.map(|x| x + 0);
+    }
+    // the bind's input: height grows when `sel` flips
+    let input = sel.bind(move |s| if *s == 0 { shallow.clone() } else { deep.clone() });
+    let o_input = input.observe();
+    let k = st.var(10i64);
+    let holder: Rc<RefCell<Option<Incr<i64>>>> = Rc::new(RefCell::new(None));
+    let stale_runs = Rc::new(RefCell::new(Vec::<(i64, i64)>::new()));
+    let b = input.bind({
+        let (holder, k, stale_runs, base, sel) = (holder.clone(), k.clone(), stale_runs.clone(), base.clone(), sel.clone());
+        move |x| {
+            let captured = *x;
+            let (stale_runs, base, sel) = (stale_runs.clone(), base.clone(), sel.clone());
+            let n = k.map(move |y| {
+                let current_input = if sel.get() == 0 { base.get() } else { base.get() + 100 };
+                if current_input != captured {
+                    stale_runs.borrow_mut().push((captured, *y));
+                }
+                y + captured
+            });
+            *holder.borrow_mut() = Some(n.clone());
+            n
+        }
+    });
+    let ob = b.observe();
+    st.stabilise();
+    check!(ob.try_get_value() == Ok(11), "round1 {:?}", ob.try_get_value());
+    // keep the node built by the closure alive and observed on its own
+    let n = holder.borrow().clone().unwrap();
+    let on = n.observe();
+    st.stabilise();
+    // the bind goes unobserved; its input stays observed and becomes much taller
+    drop(ob);
+    st.stabilise();
+    sel.set(1);
+    st.stabilise();
+    check!(o_input.try_get_value() == Ok(101), "input {:?}", o_input.try_get_value());
+    // the bind comes back in a round in which the kept node's own input changes too
+    let ob2 = b.observe();
+    k.set(20);
+    st.stabilise();
+    check!(ob2.try_get_value() == Ok(121), "bind after re-observation {:?}", ob2.try_get_value());
+    check!(
+        stale_runs.borrow().is_empty(),
+        "a closure built for a previous bind input ran after the input had changed: {:?}",
+        stale_runs.borrow()
+    );
+    check!(
+        on.try_get_value() == Err(ObserverError::ObservingInvalid),
+        "node of the superseded run: {:?}",
+        on.try_get_value()
+    );
+    #[cfg(cormacrelf_incremental_rs_verif)]
+    {
+        let audit = st.verif_audit();
+        check!(audit.is_empty(), "audit: {}", audit.join("; "));
+    }
     Ok(())
 }
